@@ -720,15 +720,89 @@ def _isqrt_frac(f):
     return None
 
 
+def _split_coeff(t):
+    """term -> (positive-or-any rational coefficient, rest term | None) with t == q * rest"""
+    if z3.is_rational_value(t):
+        return Fraction(t.numerator_as_long(), t.denominator_as_long()), None
+    if z3.is_int_value(t):
+        return Fraction(t.as_long()), None
+    if z3.is_app(t):
+        k = t.decl().kind()
+        if k == z3.Z3_OP_DIV:
+            qa, ra = _split_coeff(t.arg(0))
+            qb, rb = _split_coeff(t.arg(1))
+            if qb == 0:
+                return Fraction(1), t
+            q = qa / qb
+            if ra is None and rb is None:
+                return q, None
+            if rb is None:
+                return q, ra
+            if ra is None:
+                return q, z3.RealVal(1) / rb
+            return q, ra / rb
+        if k == z3.Z3_OP_MUL:
+            q = Fraction(1)
+            rest = None
+            for c in t.children():
+                qc, rc = _split_coeff(c)
+                q *= qc
+                if rc is not None:
+                    rest = rc if rest is None else rest * rc
+            return q, rest
+        if k == z3.Z3_OP_TO_REAL:
+            qa, ra = _split_coeff(t.arg(0))
+            if ra is None:
+                return qa, None
+    return Fraction(1), t
+
+
+def _sqrt_rational(q):
+    """sqrt of a positive rational = (rational) * sqrt(squarefree integer)  ->  (Fraction coef, int m)"""
+    n, d = q.numerator, q.denominator
+    x = n * d
+    k = 1
+    p = 2
+    m = 1
+    while p * p <= x:
+        while x % (p * p) == 0:
+            x //= p * p
+            k *= p
+        if x % p == 0:
+            x //= p
+            m *= p
+        p += 1 if p == 2 else 2
+    m *= x
+    return Fraction(k, d), m
+
+
 def sqrt(v):
+    """sqrt with the normalisation sqrt(q * t) = c * sqrt(m) * sqrt(t) for a positive rational q = c^2 m
+    (m square-free integer); sound for t >= 0 (for t < 0 numpy yields NaN: A1)"""
     v = norm(v)
     if isinstance(v, Cx):
         raise EngineError("complex sqrt")
     if is_conc(v):
-        r = _isqrt_frac(Fraction(_num(v)))
-        if r is not None:
-            return r
-    return SV(F_SQRT(_simp(zr(v))))
+        f = Fraction(_num(v))
+        if f < 0:
+            raise EngineError("sqrt of a negative constant")
+        if f == 0:
+            return Fraction(0)
+        c, m = _sqrt_rational(f)
+        if m == 1:
+            return c
+        return mul(c, SV(F_SQRT(z3.RealVal(m))))
+    t = _simp(zr(v))
+    q, rest = _split_coeff(t)
+    if rest is None:
+        return sqrt(q)
+    if q <= 0 or q == 1:
+        return SV(F_SQRT(t))
+    c, m = _sqrt_rational(q)
+    r = SV(F_SQRT(_simp(rest)))
+    if m != 1:
+        r = mul(SV(F_SQRT(z3.RealVal(m))), r)
+    return mul(c, r)
 
 
 def exp(v):
@@ -749,17 +823,27 @@ def log(v):
 
 
 def cos(v):
+    """cos with the parity normalisation cos(-x) = cos(x) (trusted identity)"""
     v = norm(v)
     if is_conc(v) and _num(v) == 0:
         return Fraction(1)
-    return SV(F_COS(_simp(zr(v))))
+    t = _simp(zr(v))
+    q, rest = _split_coeff(t)
+    if rest is not None and q < 0:
+        t = _simp(-t)
+    return SV(F_COS(t))
 
 
 def sin(v):
+    """sin with the parity normalisation sin(-x) = -sin(x) (trusted identity)"""
     v = norm(v)
     if is_conc(v) and _num(v) == 0:
         return Fraction(0)
-    return SV(F_SIN(_simp(zr(v))))
+    t = _simp(zr(v))
+    q, rest = _split_coeff(t)
+    if rest is not None and q < 0:
+        return neg(SV(F_SIN(_simp(-t))))
+    return SV(F_SIN(t))
 
 
 def arccos(v):
